@@ -184,14 +184,15 @@ class Sched(object):
         self._last = None
 
     # ---- naming --------------------------------------------------------------------------------
-    def tag(self, obj, name):
+    def tag(self, obj, name, keep=True):
         self.names[id(obj)] = name
-        self.keep.append(obj)
+        if keep:
+            self.keep.append(obj)       # (so that the id stays its own; keep=False: the object may die, as weakly held ones must)
         return obj
 
-    def trace(self, obj, name):
+    def trace(self, obj, name, keep=True):
         self.traced[id(obj)] = name
-        self.tag(obj, name)
+        self.tag(obj, name, keep)
         return obj
 
     def name_of(self, obj):
